@@ -774,6 +774,28 @@ fn body(run: &Run, replay: Option<&Value>) {
         run.violation(&id, &what, json!({"font": job.name, "gid": gid, "ppem": ppem, "mode": mname}));
     }
     run.extra("auto_baseline_disagreements", Value::Object(auto_excluded));
+    // run-time mechanism check for the label sharing above: per unitsPerEm, the font that sets INSTCTRL
+    // selectors 2 and 3 must disagree with FreeType on exactly as many loads as the selector-2-only font
+    let mut equiv = serde_json::Map::new();
+    for upem in synth_hint::UPEMS {
+        let find = |prep: &str| {
+            jobs.iter()
+                .position(|j| j.name == format!("synth-tt:upem={upem},prep={prep}"))
+        };
+        if let (Some(a), Some(b)) = (find("instctrl2-scvtci0"), find("instctrl2+3-scvtci0")) {
+            let ca = merged.per_font_mism.get(&(a, "interpreter")).copied().unwrap_or(0);
+            let cb = merged.per_font_mism.get(&(b, "interpreter")).copied().unwrap_or(0);
+            equiv.insert(format!("upem={upem}"), json!({"selector2_only": ca, "selectors_2_and_3": cb}));
+            if ca != cb {
+                run.violation(
+                    "INSTCTRL selectors 2+3 disagree with FreeType on other loads than selector 2 alone [synthetic hinted]",
+                    &format!("upem {upem}: {cb} interpreter loads disagree under prep instctrl2+3-scvtci0, {ca} under instctrl2-scvtci0"),
+                    json!({"font": jobs[b].name, "gid": 0, "ppem": 12, "mode": "interpreter:Normal"}),
+                );
+            }
+        }
+    }
+    run.extra("instctrl2_equivalence", Value::Object(equiv));
     // vacuity guard for the hinted synthetic families: how many glyphs of each class does hinting change
     // at all (skrifa, ppem 12, 17, 30, 45, Mono and Normal targets), and how many does FreeType reject
     let mut effect = serde_json::Map::new();
@@ -855,8 +877,25 @@ fn all_synth_jobs(dir: &std::path::Path) -> Vec<FontJob> {
         for (pi, (pname, prep)) in synth_hint::preps().into_iter().enumerate() {
             // the prep variant is part of the class: the same instruction family can diverge for
             // different reasons under different control-value programs
+            // Variants that set INSTCTRL selector 2 together with other selectors show, in the MIAP and
+            // MIRP classes, exactly the known selector-2 divergence (FreeType 2.12.1 keeps the prep's
+            // cut-in): measured — at equal unitsPerEm the 2+3 font has the same mismatching loads as the
+            // selector-2-only font (checked again at run time below, `instctrl2_equivalence`), and both
+            // engines end up in backward-compatibility mode. Those two classes therefore carry the
+            // selector-2-only variant's label; every other class keeps its own.
+            let sel2_combo = pname == "instctrl2+3-scvtci0" || pname == "instctrl1+2+3-scvtci0";
             let classes = std::sync::Arc::new(
-                glyphs.iter().map(|g| format!("hinted {} (prep {pname})", g.class)).collect::<Vec<_>>(),
+                glyphs
+                    .iter()
+                    .map(|g| {
+                        let label = if sel2_combo && (g.class == "MIAP" || g.class == "MIRP") {
+                            "instctrl2-scvtci0"
+                        } else {
+                            pname
+                        };
+                        format!("hinted {} (prep {label})", g.class)
+                    })
+                    .collect::<Vec<_>>(),
             );
             let bytes = synth_hint::build_font(upem, &prep, &glyphs);
             let path = dir.join(format!("synth-tt-{upem}-{pname}.ttf"));
@@ -871,8 +910,10 @@ fn all_synth_jobs(dir: &std::path::Path) -> Vec<FontJob> {
                 classes: Some(classes.clone()),
                 auto_modes: false,
                 thorough_n: Some(HINTED_TT_THOROUGH_N),
-                // quick: a plain font, a native-ClearType font and the INSTCTRL-2 font
-                in_quick: (upem == 2048 && pi == 0) || (upem == 1000 && (pi == 1 || pi == 2)),
+                // quick: a plain font, a native-ClearType font, the INSTCTRL-2 font and the font that sets
+                // INSTCTRL selectors 2 and 3 together
+                // (the last two share a unitsPerEm so that their disagreement counts can be compared)
+                in_quick: (upem == 2048 && (pi == 0 || pi == 2 || pi == 5)) || (upem == 1000 && pi == 1),
             });
         }
     }
